@@ -17,6 +17,8 @@ pub enum Action {
     Truncate { len: u32 },
     /// the send call itself fails with this io::ErrorKind name
     SendErr { kind: String },
+    /// an on-path party replaces the datagram by whatever the scenario's rewriter returns for (name, args)
+    Rewrite { name: String, a: Vec<i64> },
 }
 
 #[derive(Serialize, Deserialize, Clone, Debug, PartialEq)]
